@@ -99,4 +99,6 @@ def opValRpn (args : List String) : String :=
     go [] toks
   | _ => "err\tbad-op"
 
+def ValueProto.ops : List (String × (List String → String)) := [("val.rpn", opValRpn)]
+
 end Ledger
